@@ -48,7 +48,7 @@ pub fn replay(cases: &[J]) -> J {
             } else { 0 };
             // self-join on the whole line: every line pairs with each of its duplicates
             let exp_jn: u64 = if paths.len() == 1 { exp.iter().map(|a| exp.iter().filter(|b| *b == a).count() as u64).sum() } else { 0 };
-            let short = |v: &Vec<String>| v.iter().map(|s| if s.len() > 40 { format!("{}..({} bytes)", &s[..8], s.len()) } else { s.clone() }).collect::<Vec<_>>();
+            let short = |v: &Vec<String>| v.iter().map(|s| if s.len() > 40 { format!("{}..({} bytes)", s.chars().take(8).collect::<String>(), s.len()) } else { s.clone() }).collect::<Vec<_>>();
             let observed = json!({"lines": short(&got), "status": obs.status, "total_lines": obs.consumed, "count": n, "join_pairs": jn, "unit": unit});
             let expected = json!({"lines": short(&exp), "status": "ok", "total_lines": exp.len(), "count": exp.len(), "join_pairs": exp_jn, "unit": unit});
             let lost = case["lost"].as_bool().unwrap();
